@@ -1,6 +1,6 @@
 (* C24 — the static obligation, re-checked against the regenerated graph
    (gen/C24_graph.v) on every run. *)
-From Coq Require Import List PArith Bool.
+From Coq Require Import List PArith NArith Bool.
 From ELA Require Import lib.Graph proof.Graph gen.C24_graph.
 Import ListNotations.
 
@@ -17,6 +17,15 @@ Proof.
   rewrite forallb_forall in H. intros f ok Hin. exact (H _ Hin).
 Qed.
 
+(* no slice filled in map iteration order reaches a consumer unsorted, except
+   the classified sites *)
+Lemma map_order_sites_sorted :
+  forall f v, In (f, v) C24_graph.map_order_sites -> (v <= 5)%N.
+Proof.
+  assert (H : forallb (fun s => N.leb (snd s) 5) C24_graph.map_order_sites = true) by (vm_compute; reflexivity).
+  rewrite forallb_forall in H. intros f v Hin. apply N.leb_le. exact (H _ Hin).
+Qed.
+
 (* the table is not degenerate: the anchors named by the property are source
    nodes with out-edges, there are bad nodes, and the search ran to completion *)
 Lemma static_nonvacuous :
@@ -25,5 +34,6 @@ Lemma static_nonvacuous :
   /\ negb (Nat.eqb (length C24_graph.anchors) 0) = true
   /\ negb (Nat.eqb (length C24_graph.bad) 0) = true
   /\ (match reach_set C24_graph.graph C24_graph.sources with Some _ => true | None => false end) = true
-  /\ negb (Nat.eqb (length C24_graph.float_map_sums) 0) = true.
+  /\ negb (Nat.eqb (length C24_graph.float_map_sums) 0) = true
+  /\ negb (Nat.eqb (length (filter (fun s => N.eqb (snd s) 0) C24_graph.map_order_sites)) 0) = true.
 Proof. vm_compute. repeat split. Qed.
